@@ -71,7 +71,7 @@ func manifest() map[string]any {
 			"level_note": "Trusted: go/types, go/ssa, go/cfg and the VTA call graph of golang.org/x/tools v0.29.0; the rule definitions, accepted-idiom lists and per-construct exception tables in /verif/checker (each exception is one named construct with a reason). Undecided (unresolved anchor, type errors, instance floor not met) exits 2 and is never reported as a violation.",
 		})
 	}
-	var na []map[string]any
+	na := []map[string]any{}
 	var naIDs []string
 	for id := range notApplicable {
 		naIDs = append(naIDs, id)
